@@ -1,4 +1,5 @@
 import ArcSwapModel.M.Driver
+import ArcSwapModel.KindsDriver
 open M
 
 /-- `driver <exec-file>`: replays every execution of the file on `M`. -/
@@ -31,6 +32,9 @@ partial def readExecs (lines : Array String) : Array Exec := Id.run do
 
 def main (args : List String) : IO UInt32 := do
   match args with
+  | ["kinds"] =>
+    for l in Kinds.lines do IO.println l
+    return 0
   | [path] =>
     let text ← IO.FS.readFile path
     let lines := (text.splitOn "\n").toArray
